@@ -6,8 +6,10 @@
 (*        joined x how string literals are quoted                             *)
 (*  FamB  the other parameters of reads (table spelling, column list, sort,   *)
 (*        limit, start): all single deviations and all pairs of deviations    *)
-(*        from the defaults; table spellings for the write operations         *)
-(*  FamC  JSON row payloads of update/insert (value atoms x key spellings)    *)
+(*        from the defaults with at most one adversarial atom; FamBwr = table *)
+(*        spellings for the write operations (never sampled)                  *)
+(*  FamC  JSON row payloads of update/insert (value atoms x key spellings;    *)
+(*        never sampled)                                                      *)
 EXTENDS SqlFilter, Json, Randomization
 
 CONSTANTS Fams,           \* subset of {"A1","A2","A3","B","C"}
@@ -48,7 +50,7 @@ FamBread == {r \in [op : {"read", "aread"}, tbl : GoodTbl \cup AdvTbl, flt : BFl
 FamBtx   == {r \in [op : {"txrows"}, tbl : GoodTbl \cup AdvTbl, flt : BFlt, join : {"array"}, qs : {"dq"},
              cols : ColSeqs, sort : {"-"}, limit : {"-"}, start : {"-"}, setv : {<<>>}, key : {"name"}] : Adv(r) <= 1}
 FamBwr   == {[[Base(op) EXCEPT !.tbl = t] EXCEPT !.flt = <<LI("EQ", 2)>>] : op \in WriteOps, t \in GoodTbl \cup AdvTbl}
-FamB == FamBread \cup FamBtx \cup FamBwr
+FamB == FamBread \cup FamBtx
 
 SLeaf(a) == LeafF([op |-> "EQ", col |-> "name", iv |-> 0, sv |-> a])
 FamC == {[[[Base(op) EXCEPT !.setv = v] EXCEPT !.key = k] EXCEPT !.flt = f] :
@@ -56,9 +58,9 @@ FamC == {[[[Base(op) EXCEPT !.setv = v] EXCEPT !.key = k] EXCEPT !.flt = f] :
         \cup {[[Base(op) EXCEPT !.setv = v] EXCEPT !.key = k] : op \in {"insert", "txinsert"}, v \in StrAtoms, k \in GoodKey \cup AdvKey}
 
 Pick(S) == IF Sample = 0 \/ Cardinality(S) <= Sample THEN S ELSE RandomSubset(Sample, S)
-Requests == (IF "A0" \in Fams THEN FamA0 ELSE {}) \cup (IF "A1" \in Fams THEN Pick(FamA1) ELSE {}) \cup (IF "A2" \in Fams THEN Pick(FamA2) ELSE {})
+Requests == (IF "A0" \in Fams THEN FamA0 \cup FamBwr ELSE {}) \cup (IF "A1" \in Fams THEN Pick(FamA1) ELSE {}) \cup (IF "A2" \in Fams THEN Pick(FamA2) ELSE {})
             \cup (IF "A3" \in Fams THEN Pick(FamA3) ELSE {}) \cup (IF "B" \in Fams THEN Pick(FamB) ELSE {})
-            \cup (IF "C" \in Fams THEN Pick(FamC) ELSE {})
+            \cup (IF "C" \in Fams THEN FamC ELSE {})
 
 GenInit == req \in Requests
 GenNext == UNCHANGED req
